@@ -4,11 +4,15 @@ use aidl_parser::Parser;
 use std::collections::BTreeMap;
 use std::path::PathBuf;
 
-const CONTENTS: [&str; 4] = [
+const NC: usize = 6;
+const CONTENTS: [&str; NC] = [
     "package q; parcelable A { int x; }",
     "package q; interface A { void f(); }",
     "package p; import q.A; interface I { void f(in A a); A g(); }",
     "package p; interface J { oops",
+    // texts the parser rejects WITHOUT recovery (no tree at all): replacing a good content by one of these must drop the old tree
+    "",
+    "interface NoPackage { void f(); }",
 ];
 
 fn snapshot<ID: std::fmt::Debug + Ord + Clone + std::hash::Hash + Eq>(p: &Parser<ID>) -> Vec<(ID, String)> {
@@ -20,24 +24,24 @@ fn snapshot<ID: std::fmt::Debug + Ord + Clone + std::hash::Hash + Eq>(p: &Parser
 #[test]
 fn c12_all() {
     let mut ok = true;
-    // ops: 0..12 = add(id, content), 12..15 = remove(id), 15 = validate
-    let n_ops = 16usize;
+    // ops: 0..3*NC = add(id, content), then 3 x remove(id), then validate
+    let n_ops = 3 * NC + 4;
     let mut checked = 0usize;
     let full = std::env::var("ORACLE_FULL").map(|v| v == "1").unwrap_or(false);
     for len in 1..=4usize {
         let total = n_ops.pow(len as u32);
         for code in 0..total {
-            // quick: length <= 2 exhaustively, length 3 every 5th, length 4 every 331st; thorough: length <= 3 exhaustively, length 4 every 7th
-            if len == 3 && !full && code % 5 != 0 { continue; }
-            if len == 4 && code % (if full { 7 } else { 331 }) != 0 { continue; }
+            // quick: length <= 2 exhaustively, length 3 every 11th, length 4 every 997th; thorough: length 3 every 3rd, length 4 every 199th
+            if len == 3 && code % (if full { 3 } else { 11 }) != 0 { continue; }
+            if len == 4 && code % (if full { 199 } else { 997 }) != 0 { continue; }
             let mut c = code;
             let mut p: Parser<u32> = Parser::new();
             let mut model: BTreeMap<u32, &str> = BTreeMap::new();
             let mut desc = Vec::new();
             for _ in 0..len {
                 let op = c % n_ops; c /= n_ops;
-                if op < 12 { let (id, k) = ((op / 4) as u32, op % 4); p.add_content(id, CONTENTS[k]); model.insert(id, CONTENTS[k]); desc.push(format!("add({},c{})", id, k)); }
-                else if op < 15 { let id = (op - 12) as u32; p.remove_content(id); model.remove(&id); desc.push(format!("remove({})", id)); }
+                if op < 3 * NC { let (id, k) = ((op / NC) as u32, op % NC); p.add_content(id, CONTENTS[k]); model.insert(id, CONTENTS[k]); desc.push(format!("add({},c{})", id, k)); }
+                else if op < 3 * NC + 3 { let id = (op - 3 * NC) as u32; p.remove_content(id); model.remove(&id); desc.push(format!("remove({})", id)); }
                 else { let _ = p.validate(); desc.push("validate".to_owned()); }
                 if desc.len() < len && !full { continue; } // compare after the last step only (every step in the thorough tier)
                 // two same-key files of different kinds make the result hash-order dependent (known finding of C11): skip those states
